@@ -66,8 +66,14 @@ func claimTruth(kvs []kvT, c *rangeClaim) (isTrue, more bool) {
 		return true, false
 	} else {
 		last := c.keys[len(c.keys)-1]
+		// Tolerance: juno does not check keys[0] >= first. A claim whose entries start left of `first` is read as a
+		// claim about [keys[0], last]: if all its entries are genuine and none is omitted, nothing false was accepted.
+		lo := c.first
+		if c.keys[0].Cmp(lo) < 0 {
+			lo = c.keys[0]
+		}
 		for _, kv := range sorted {
-			if kv.K.Cmp(c.first) >= 0 && kv.K.Cmp(last) <= 0 {
+			if kv.K.Cmp(lo) >= 0 && kv.K.Cmp(last) <= 0 {
 				want = append(want, kv)
 			}
 			if kv.K.Cmp(last) > 0 {
@@ -148,8 +154,8 @@ func runRangeCase(r *ev.Run, c *rangeCase, hs *hasher, loc tally) {
 		case isTrue && more == tmore:
 			loc.add("range tamper " + class + ": altered claim is still true, accepted (excluded)")
 		case isTrue:
-			r.Violate(fmt.Sprintf("range-proof-more-entries-flag-wrong %s tamper=%s", c.im.name, class),
-				detail(cl, map[string]any{"honest": honest.String(), "got_more": more, "true_more": tmore}))
+			r.Violate(fmt.Sprintf("range-proof-more-entries-flag-wrong %s", c.im.name),
+				detail(cl, map[string]any{"tamper": class, "honest": honest.String(), "got_more": more, "true_more": tmore}))
 		default:
 			r.Violate(fmt.Sprintf("FALSE-range-claim-accepted %s tamper=%s", c.im.name, class),
 				detail(cl, map[string]any{"honest": honest.String(), "keying": keying, "nodes": cl.nodes}))
@@ -251,7 +257,7 @@ func runRangeCase(r *ev.Run, c *rangeCase, hs *hasher, loc tally) {
 			loc.add("range honest " + kind + ": REJECTED")
 			return
 		case more != tmore:
-			r.Violate(fmt.Sprintf("range-proof-more-entries-flag-wrong %s honest %s", c.im.name, kind), detail(hc, map[string]any{"got_more": more, "true_more": tmore}))
+			r.Violate(fmt.Sprintf("range-proof-more-entries-flag-wrong %s", c.im.name), detail(hc, map[string]any{"honest_kind": kind, "got_more": more, "true_more": tmore}))
 		}
 		loc.add(fmt.Sprintf("range honest %s more=%v: accepted", kind, tmore))
 		tamper(hc)
@@ -341,7 +347,10 @@ func runRange(r *ev.Run) {
 						}
 					}
 					if h == 3 && r.Quick() && (len(kvs) > 2 || emb != "spread") {
-						continue // quick: height 3 with <=2 entries in the spread embedding only; thorough: everything
+						continue // quick: height 3 with <=2 entries in the spread embedding only
+					}
+					if h == 3 && len(kvs) > 4 {
+						continue // thorough: height 3 with <=4 entries (every embedding); all height-2 states in both tiers
 					}
 					cases = append(cases, &rangeCase{label: fmt.Sprintf("h=%d/%s", h, emb), desc: fmt.Sprintf("state=%v %s", ds, kvDesc(kvs)),
 						im: im, kvs: kvs, logical: logical})
